@@ -37,8 +37,10 @@ structure ReqD where
   proto11 : Bool
   conn : Nat              -- 0 absent, 1 close, 2 keep-alive
   expect : Expect
-  sent : Bool             -- the client put the body on the wire (may be false only after Expect: 100-continue)
+  sent : Bool             -- the client puts the body on the wire right behind the header (pipelined)
   body : BodyD
+  waits : Bool := false   -- waiting client: sends nothing past the header until the server answers; the body
+                          -- follows only after a `100 Continue` (then `sent = false`)
   deriving Repr, DecidableEq
 
 inductive Seg where
@@ -107,27 +109,54 @@ def clNonZero : BodyD → Bool
 
 def segLenGarbage : Nat := 11
 
+/-- the handler touches req.Body -/
+def Script.reads (sc : Script) : Bool :=
+  match sc.read with
+  | .no => false
+  | .all => true
+  | .part k => k > 0
+
+/-- expectContinueReader: `100 Continue` is written on the first body read of an HTTP/1.1 request with
+    `Expect: 100-continue` and a non-zero Content-Length -/
+def wroteCont (r : ReqD) (sc : Script) : Bool :=
+  r.expect == .cont && r.proto11 && sc.reads && clNonZero r.body
+
+/-- the body bytes are on the wire: sent unconditionally, or by a waiting client that got its `100 Continue` -/
+def onWire (r : ReqD) (cont : Bool) : Bool := r.sent || (r.waits && cont)
+
 /-! ## SPEC: where requests start according to RFC 7230 -/
 
-/-- length of message `i` as an RFC 7230 recipient delimits it; `none` = cannot be delimited -/
-def rfcLen (i : Nat) : Seg → Option Nat
+/-- length of message `i` as an RFC 7230 recipient delimits it; `none` = cannot be delimited.
+    `cont` = the server answered this request's `Expect: 100-continue` with `100 Continue`. -/
+def rfcLen (i : Nat) (cont : Bool) : Seg → Option Nat
   | .req r =>
     match r.body with
     | .bad _ => none                                         -- chunked coding cannot be decoded
-    | b => some (hdrLen i r + (if r.sent then bodyWire b else 0))
+    | b => some (hdrLen i r + (if onWire r cont then bodyWire b else 0))
   | _ => none
 
-/-- start offset of message `k` when the stream starts with message number `i` at offset `pos` -/
-def rfcStartFrom : Nat → Nat → List Seg → Nat → Option Nat
-  | pos, i, segs, k =>
+def hd : List Bool → Bool
+  | [] => false
+  | c :: _ => c
+
+/-- start offset of message `k` when the stream starts with message number `i` at offset `pos`;
+    `conts` = for every message from `i` on, whether it was answered with `100 Continue` -/
+def rfcStartFrom : Nat → Nat → List Seg → List Bool → Nat → Option Nat
+  | pos, i, segs, conts, k =>
     if k == i then (match segs with | [] => none | _ :: _ => some pos)
     else match segs with
       | [] => none
-      | s :: t => match rfcLen i s with
+      | s :: t => match rfcLen i (hd conts) s with
         | none => none
-        | some l => if k < i then none else rfcStartFrom (pos + l) (i + 1) t k
+        | some l => if k < i then none else rfcStartFrom (pos + l) (i + 1) t conts.tail k
 
-def rfcStart (segs : List Seg) (k : Nat) : Option Nat := rfcStartFrom 0 0 segs k
+def rfcStart (segs : List Seg) (conts : List Bool) (k : Nat) : Option Nat := rfcStartFrom 0 0 segs conts k
+
+/-- which requests the server's handler scripts answer with `100 Continue` (scripts are positional) -/
+def contList : List Seg → List Script → List Bool
+  | [], _ => []
+  | .req r :: t, scs => wroteCont r (scs.headD defaultScript) :: contList t scs.tail
+  | _ :: t, scs => false :: contList t scs.tail
 
 /-! ## The serve loop -/
 
@@ -158,13 +187,13 @@ def serveOne (ka : Bool) (r : ReqD) (sc : Script) : Bytes × Bool :=
   let expecter := r.expect == .cont && r.proto11
   let dec := bodyDecoded r.body
   -- the handler reads the body
-  let (didRead, left) : Bool × Nat :=
+  let left : Nat :=
     match sc.read with
-    | .no => (false, dec)
-    | .all => (true, 0)
-    | .part k => (k > 0, dec - k)
+    | .no => dec
+    | .all => 0
+    | .part k => dec - k
   let hasBody := clNonZero r.body
-  let wroteContinue := expecter && didRead && hasBody
+  let wroteContinue := wroteCont r sc
   let pre := if wroteContinue then continue100 else []
   let rq : BfeVerif.C27.Req :=
     { isHead := r.method == 1, proto11 := r.proto11, conn := connStr r.conn,
@@ -237,52 +266,82 @@ def desyncClass (segs : List Seg) (j : Nat) : String :=
      | _ => if r.expect == .cont && !r.sent then "expect-desync" else "desync")
   | _ => "desync"
 
-/-- final statuses of the responses in `out`; t = number of the request whose final response is awaited -/
-def parseStream (segs : List Seg) : Nat → Bytes → Nat → List Nat → Except String (List Nat)
-  | 0, _, _, acc => .ok acc.reverse
-  | fuel + 1, bs, t, acc =>
-    if bs.isEmpty then .ok acc.reverse else
+structure Resp where
+  status : Nat
+  had100 : Bool        -- an interim `100 Continue` preceded it
+  close : Bool         -- carries `Connection: close`
+  deriving Repr
+
+/-- the final responses in `out`; t = number of the request whose final response is awaited -/
+def parseStream (segs : List Seg) : Nat → Bytes → Nat → Bool → List Resp → (List Resp × Option String)
+  | 0, _, _, _, acc => (acc.reverse, none)
+  | fuel + 1, bs, t, c100, acc =>
+    if bs.isEmpty then (acc.reverse, none) else
     match BfeVerif.C27.rfcResponse (segIsHead segs[t]?) bs with
-    | none => .error "unparseable-stream"
+    | none => (acc.reverse, some "unparseable-stream")
     | some p =>
       if p.status == 100 then
-        (if segExpects segs[t]? then parseStream segs fuel p.rest t acc else .error "unexpected-100")
-      else if p.framing == .invalid || !p.complete then .error "bad-response-framing"
-      else parseStream segs fuel p.rest (t + 1) (p.status :: acc)
+        (if segExpects segs[t]? then parseStream segs fuel p.rest t true acc
+         else (acc.reverse, some "unexpected-100"))
+      else if p.framing == .invalid || !p.complete then (acc.reverse, some "bad-response-framing")
+      else parseStream segs fuel p.rest (t + 1) false
+             (⟨p.status, c100, (BfeVerif.C27.fieldList p.lines "connection").contains "close"⟩ :: acc)
 
 def clientViolation (segs : List Seg) (scs : List Script) : Bool :=
   (List.range segs.length).any fun j =>
     match segs[j]? with
     | some (.req r) =>
-      (!r.sent && (r.expect != .cont || !r.proto11 || (scs.getD j defaultScript).read != .no)) ||
+      (!r.sent && !r.waits && (r.expect != .cont || !r.proto11 || (scs.getD j defaultScript).reads)) ||
+      (r.waits && (r.sent || r.expect != .cont || !r.proto11)) ||
       (match (scs.getD j defaultScript).act with
        | .respond st _ _ _ len _ => (st == 204 || st < 200) && len > 0
        | _ => false)
     | _ => false
 
-def startsOk (segs : List Seg) : Nat → List (Nat × Option Nat) → Option Nat
+def startsOk (segs : List Seg) (conts : List Bool) : Nat → List (Nat × Option Nat) → Option Nat
   | _, [] => none
   | j, (o, idx) :: t =>
-    if idx == some j && rfcStart segs j == some o && (segs[j]?.bind errorStatus).isNone && (segs[j]?).isSome
-    then startsOk segs (j + 1) t else some j
+    if idx == some j && rfcStart segs conts j == some o && (segs[j]?.bind errorStatus).isNone && (segs[j]?).isSome
+    then startsOk segs conts (j + 1) t else some j
+
+/-- every HTTP/1.1 request whose `Expect: 100-continue` got a final response without `100 Continue`
+    must be the last one read on the connection unless the response says so (`Connection: close`) … or
+    the next request was read at its RFC start (checked by `startsOk`): index of an offender -/
+def unansweredOpen (segs : List Seg) (scs : List Script) (h : Nat) (obs : List Resp) : Option Nat :=
+  (List.range obs.length).find? fun j =>
+    match segs[j]?, obs[j]?, (scs.getD j defaultScript).act with
+    | some (.req r), some o, .respond _ _ _ _ _ _ =>
+      j < h && r.expect == .cont && r.proto11 && clNonZero r.body && !o.had100 && !o.close && j + 1 ≥ h
+    | _, _, _ => false
 
 /-- The C28 verdict: `starts` = (offset, URI index) of every request the loop handed to the handler,
     `out` = the response stream. -/
 def judge (segs : List Seg) (scs : List Script) (starts : List (Nat × Option Nat)) (out : Bytes) : String :=
   if clientViolation segs scs then "skip" else
-  match startsOk segs 0 starts with
+  let (resps, perr) := parseStream segs (out.length + 1) out 0 false []
+  let conts := resps.map (·.had100)
+  match startsOk segs conts 0 starts with
   | some j => "FAIL:" ++ desyncClass segs j
   | none =>
+    match perr with
+    | some e => "FAIL:" ++ e
+    | none =>
     let h := starts.length
     let base := (List.range h).filterMap (fun j => scriptStatus (scs.getD j defaultScript))
-    match parseStream segs (out.length + 1) out 0 [] with
-    | .error e => "FAIL:" ++ e
-    | .ok obs =>
+    let obs := resps.map (·.status)
+    let verdict :=
       if obs == base then "ok"
       else match segs[h]?.bind errorStatus with
         | some e => if obs == base ++ [e] then
-                      (if (rfcStart segs h).isSome then "ok" else "FAIL:" ++ desyncClass segs h)
-                    else if obs.length > base.length + 1 then "FAIL:" ++ desyncClass segs (h + 1) else "FAIL:response-mismatch"
+                      (if (rfcStart segs conts h).isSome then "ok" else "FAIL:" ++ desyncClass segs h)
+                    else if obs.length > base.length + 1 then "FAIL:" ++ desyncClass segs (h + 1)
+                    else if obs.length == base.length + 1 && obs.take base.length == base then
+                      "FAIL:" ++ desyncClass segs h        -- message h answered with the wrong error: it was misread
+                    else "FAIL:response-mismatch"
         | none => if obs.length > base.length then "FAIL:" ++ desyncClass segs h else "FAIL:response-mismatch"
+    if verdict != "ok" then verdict
+    else match unansweredOpen segs scs h resps with
+      | some _ => "FAIL:expect-kept-alive"
+      | none => "ok"
 
 end BfeVerif.C28
